@@ -25,7 +25,7 @@ LEVEL = "exploration"
 EXHAUSTIVE = False
 TIERS = {
     "quick": {"runs": 320, "budget_s": 150, "chunk": 2, "max_shrink": 3, "shrink_each_s": 15, "shrink_budget_s": 50, "calibrate_every": 10},
-    "thorough": {"runs": 6000, "budget_s": 3000, "chunk": 4, "max_shrink": 6, "shrink_each_s": 30, "shrink_budget_s": 300, "calibrate_every": 20},
+    "thorough": {"runs": 20000, "budget_s": 3300, "chunk": 4, "max_shrink": 6, "shrink_each_s": 30, "shrink_budget_s": 300, "calibrate_every": 20},
 }
 INV_PER_WORLD = {"quick": 14, "thorough": 16}
 CHILD_TIMEOUT = {"quick": 40, "thorough": 90}
